@@ -418,6 +418,11 @@ def signature(c: T.Dict[str, T.Any], v: T.Dict[str, T.Any], alpha: T.List[T.Dict
     return f"{v['clause']}@gnu{c['g']}fin{c['f']}:" + ';'.join(hist)
 
 
+def alpha_text(alpha: T.List[T.Dict[str, T.Any]], j: int) -> str:
+    from . import arglist_projects
+    return arglist_projects.POOL[j - 1][0] if 0 < j <= len(arglist_projects.POOL) else f'<{j}>'
+
+
 def _tlc_part(payload: str, workers: T.Union[int, str]) -> common.TLCResult:
     with scratch('c13-') as d:
         tf = d / 'cases.json'
@@ -453,15 +458,12 @@ def judge(chk: Check, cases: T.List[T.Dict[str, T.Any]], alpha: T.List[T.Dict[st
             raise MachineryError(f'TraceArgList judged {res.distinct // 2} of {len(part)} cases')
         chk.add_tlc(f'TraceArgList[{label}]', res, model=False)
         got = res.json_lines()
-        if got:
-            # rejected cases are judged again single-threaded so that report lines cannot interleave
-            ids = {v[0].get('id') for v in got if isinstance(v, list) and v and isinstance(v[0], dict)}
-            sub = [c for c in part if c['id'] in ids]
-            got1 = _tlc_part(payload(sub), 1).json_lines() if sub else []
-            if len(got1) < len(got):
-                got1 = _tlc_part(payload(part), 1).json_lines()
-            for vs in got1:
-                bad += vs
+        # every verdict is one println of one string; should a line ever be torn, judge the part again single-threaded
+        printed = sum(1 for ln in res.stdout.splitlines() if ln.startswith('"'))
+        if printed != len(got) or any(not isinstance(v, list) for v in got):
+            got = _tlc_part(payload(part), 1).json_lines()
+        for vs in got:
+            bad += vs
     chk.traces += len(cases)
     dbg(f'judge {label} {len(cases)} cases {time.time() - t0:.1f}s rejected={len(bad)}')
     seen: T.Set[str] = set()
@@ -476,6 +478,10 @@ def judge(chk: Check, cases: T.List[T.Dict[str, T.Any]], alpha: T.List[T.Dict[st
         if sig in seen:
             continue
         seen.add(sig)
+        if 'project' in c:
+            chk.violation('CommandLine:' + sig, {'verdict': v, 'project': c['project'], 'target': c['target'], 'ARGS': c['args'],
+                                                 'expected_text': [alpha_text(alpha, j) for j in v.get('expected', [])]})
+            continue
         common.use_repo_meson()
         ver = execute({k: full[k] for k in ('ops', 'g', 'f', 'vseed')}, alpha, verbose=True)
         text = ver['text']
@@ -560,7 +566,7 @@ def main(chk: Check) -> None:
             ('wide', [1, 2, 3, 4, 5, 7], [1, 3, 5], 2, 3, 2, 2, ALL_KINDS, True),
             ('wide3', [1, 2, 3, 4], [1, 3], 2, 3, 3, 2, ALL_KINDS, False),
             ('mid', [1, 3, 4, 5], [3], 1, 5, 4, 2, mid, False),
-            ('pend', [1, 2, 3, 4, 5], [3], 1, 6, 6, 2, pend, True),
+            ('pend', [1, 3, 4, 5], [3], 1, 6, 6, 2, pend, True),
             ('native', [4, 6, 9, 10, 11, 12], [10], 2, 3, 3, 1, nat, True),
         ]
     with ProcessPoolExecutor(max_workers=common.NCPU) as ex:
@@ -615,8 +621,8 @@ def main(chk: Check) -> None:
     chk.extra['random_histories'] = n_rand
     chk.extra['concrete_argument_table'] = len(alpha) - 2
     # (C) real command lines
-    from . import c13_projects
-    c13_projects.run(chk, judge)
+    from . import arglist_projects
+    arglist_projects.run(chk, judge)
     chk.exhaustive = True
     chk.assumptions += [
         'arguments are classified by the documented tables only (-I/-L prepend+override; -D/-U/-isystem append+override; '
@@ -633,8 +639,8 @@ def replay(chk: Check, data: T.Dict[str, T.Any]) -> None:
     common.use_repo_meson()
     det = data['detail']
     if 'case' not in det:
-        from . import c13_projects
-        c13_projects.replay(chk, det, judge)
+        from . import arglist_projects
+        arglist_projects.replay(chk, det, judge)
         return
     case = execute(dict(det['case']), det['alpha'])
     judge(chk, [case], det['alpha'], 'replay')
